@@ -192,6 +192,28 @@ def _max_call(du, operand):
     return None
 
 
+def _old_value(F, du, operand):
+    """(origin, record fields read) of an operand that is the effective disposition max(internal, user):
+    either a direct Ord::max call, or a call of a GrandState helper method whose body is that max
+    (extracting `fn effective_disposition(&self)` is a behaviour-preserving refactoring)."""
+    m = _max_call(du, operand)
+    if m is not None:
+        return m, sorted(str(record_field(du, x)) for x in m['t']['a'])
+    org = du.origin(operand)
+    if org['k'] == 'ref':
+        org = du.origin_place(org['pl'])
+    if org['k'] == 'call':
+        callee = org['t']['f'].get('def') or ''
+        cb = F.bodies.get(callee) if callee.startswith('yash_env::trap::state::GrandState::') else None
+        if cb is not None and len(cb.blocks) < 40:
+            cdu = Q.DefUse(cb)
+            for blk, t in Q.find_calls(cb, ['core::cmp::Ord::max', '*::Ord::max']):
+                if t['dest']['l'] == 0 or any(s['k'] == 'assign' and s['lhs']['l'] == 0 and s['rv']['k'] == 'use' and
+                                               Q.operand_local(s['rv']['o']) == t['dest']['l'] for _, _, s in cb.stmts()):
+                    return org, sorted(str(record_field(cdu, x)) for x in t['a'])
+    return None, []
+
+
 @RS.rule('C11.R2', 'K-WRITERS+K-SIBLING', 'per-signal record: written only by its updaters; every update is set_disposition(new) exactly on old != new, committed on success')
 def r2(cx):
     F = cx.F
@@ -228,7 +250,7 @@ def r2(cx):
             cs = conds(F, body, du, b)
             cmp_ = [c for c in cs if c[0]['k'] == 'call' and Q.callee_is(c[0]['t'], NE + EQ) and
                     (c[1][1] if Q.callee_is(c[0]['t'], NE) else not c[1][1]) and len(c[0]['t']['a']) == 2 and
-                    any(_max_call(du, a) is not None for a in c[0]['t']['a'])]
+                    any(_old_value(F, du, a)[0] is not None for a in c[0]['t']['a'])]
             if cmp_:
                 cas.append((b, t, cs, cmp_[-1]))
         cx.site('%s: commit of %s at %s; compare-and-set set_disposition at %s' % (body.fn, fld, body.loc(ws), [body.loc(t) for _, t, _, _ in cas]))
@@ -242,8 +264,7 @@ def r2(cx):
         # old = max(internal_disposition, Into(current_state.action)): the operand that reads both from the record
         sides = []
         for i, a in enumerate(cmp_t['a']):
-            m = _max_call(du, a)
-            reads = sorted(str(record_field(du, x)) for x in m['t']['a']) if m is not None else []
+            m, reads = _old_value(F, du, a)
             sides.append((i, m, reads))
         olds = [x for x in sides if x[2] == ['current_state', 'internal_disposition']]
         if len(olds) != 1:
